@@ -916,6 +916,12 @@ static int32_t reconstruct_omitted_chunk(struct jls_core_s * self, uint16_t sign
     }
 
 
+    if ((start_sample_id < r->header.timestamp) || (sample_id < s32->header.timestamp)
+            || ((sizeof(s32->header) + (s32->header.entry_count * (size_t) s32->header.entry_size_bits) / 8) > self->rd_summary->length)) {
+        JLS_LOGW("fsr summary does not match the index for sample %" PRIi64, start_sample_id);
+        return JLS_ERROR_NOT_FOUND;
+    }
+
     size_t sz = (signal_def->samples_per_data * sample_size_bits) / 8 + sizeof(struct jls_fsr_data_s);
     ROE(jls_buf_realloc(self->buf, sz));
 
@@ -1019,6 +1025,11 @@ int32_t jls_core_rd_fsr_data0(struct jls_core_s * self, uint16_t signal_id, int6
     ROE(jls_core_rd_fsr_level1(self, signal_id, start_sample_id));
     struct jls_fsr_index_s * idx = (struct jls_fsr_index_s *) self->rd_index->start;
     int64_t idx_entry = (start_sample_id - idx->header.timestamp) / signal_def->samples_per_data;
+    if ((start_sample_id < idx->header.timestamp) || (idx_entry >= (int64_t) idx->header.entry_count)
+            || ((sizeof(idx->header) + (idx_entry + 1) * sizeof(idx->offsets[0])) > self->rd_index->length)) {
+        JLS_LOGW("fsr index does not contain sample %" PRIi64, start_sample_id);
+        return JLS_ERROR_NOT_FOUND;
+    }
     int64_t offset = idx->offsets[idx_entry];
     struct jls_fsr_data_s * r;
 
